@@ -9,7 +9,13 @@ mod c04;
 mod c05;
 mod c06;
 mod c07;
+mod c08;
+mod c09;
 mod c11;
+mod c12;
+mod c13;
+mod c14;
+mod c15;
 mod c18;
 mod guard;
 mod c10;
@@ -33,8 +39,14 @@ fn main() {
         "C05" => run_prop(c05::C05, &opts),
         "C06" => run_prop(c06::C06, &opts),
         "C07" => run_prop(c07::C07, &opts),
+        "C08" => run_prop(c08::C08, &opts),
+        "C09" => run_prop(c09::C09, &opts),
         "C10" => run_prop(c10::C10, &opts),
         "C11" => run_prop(c11::C11, &opts),
+        "C12" => run_prop(c12::C12, &opts),
+        "C13" => run_prop(c13::C13, &opts),
+        "C14" => run_prop(c14::C14, &opts),
+        "C15" => run_prop(c15::C15, &opts),
         "C16" => run_prop(c16::C16, &opts),
         "C18" => c18::run(&opts),
         o => {
